@@ -296,7 +296,8 @@ impl From<IotaDID> for CoreDID {
 
 impl From<IotaDID> for String {
   fn from(did: IotaDID) -> Self {
-    did.into_string()
+    // NOTE: `did.into_string()` would recurse into this very implementation.
+    did.0.into()
   }
 }
 
